@@ -341,7 +341,28 @@ func sanitiseUnsupported(s []byte) []byte {
 }
 
 func genUnsupported(t *rapid.T) []byte {
-	switch rapid.IntRange(0, 6).Draw(t, "unsup_k") {
+	switch rapid.IntRange(0, 8).Draw(t, "unsup_k") {
+	case 7: // an inscription envelope behind something that is not P2PKH: carries the "ord" marker, pays no key hash
+		env := []byte{0x00, 0x63, 0x03, 0x6f, 0x72, 0x64, 0x51}
+		ct := gen.FillBytes(t, rapid.IntRange(1, 12).Draw(t, "ins_ct"), "ins_ctb")
+		data := gen.FillBytes(t, rapid.IntRange(1, 40).Draw(t, "ins_d"), "ins_db")
+		env = append(append(env, byte(len(ct))), ct...)
+		env = append(append(append(env, 0x00, byte(len(data))), data...), 0x68)
+		var pre []byte
+		switch rapid.IntRange(0, 4).Draw(t, "ins_pre") {
+		case 0:
+			pre = append(append([]byte{33}, gen.Bytes(t, 33, "pk")...), 0xac)
+		case 1:
+			pre = append(append([]byte{0xa9, 0x14}, gen.Bytes(t, 20, "sh")...), 0x87)
+		case 2:
+			pre = []byte{0x51}
+		case 3: // P2PKH with the wrong final opcode
+			pre = ref.FeeP2PKH(gen.Bytes(t, 20, "h"))
+			pre[24] = 0xad
+		}
+		return append(pre, env...)
+	case 8: // a data script whose payload is the marker
+		return append([]byte{0x6a, 0x06}, 0x00, 0x63, 0x03, 0x6f, 0x72, 0x64)
 	case 0:
 		return []byte{}
 	case 1: // P2PK
